@@ -69,7 +69,8 @@ fn store_scenario(ctx: &Ctx, idx: u64) -> Report {
             let t = gen::bytes(&mut rng, tid_len);
             let q = match i % 4 {
                 0 | 1 => Query::GetPeers { info_hash: ih, want: gen::want(&mut rng) },
-                2 => Query::FindNode { target: gen::id(&mut rng), want: gen::want(&mut rng) },
+                // find_node for arbitrary targets and for the very id peers are stored under
+                2 => Query::FindNode { target: if rng.gen_bool(0.5) { ih } else { gen::id(&mut rng) }, want: gen::want(&mut rng) },
                 _ => {
                     if rng.gen_bool(0.5) {
                         Query::Ping
@@ -109,11 +110,11 @@ pub fn check(tier: Tier) -> Check {
         level: "exploration",
         rule: "Stream store: a serving node (IPv4/IPv6, routing table filled from worlds of 0..400 nodes) gets \
                {0,1,20,60,70,140,148,149,150,200,350,500} peers of one family announced on one info-hash and is \
-               then asked get_peers / find_node / ping / announce_peer (tokens of 0..1300 bytes) with every want, transaction ids of \
+               then asked get_peers / find_node (random targets and the info-hash itself) / ping / announce_peer (tokens of 0..1300 bytes) with every want, transaction ids of \
                0..32 bytes and requesters of both families. Streams mixed-*: the query storm of C05, the store \
                histories of C06/C07, the hostile searches of C03 and the bootstrap configurations of C15 are \
-               re-run. Oracle: length of every datagram passed to the socket <= 1500. Oversize get_peers \
-               replies whose length without their values entries would fit are the known finding \
+               re-run. Oracle: length of every datagram passed to the socket <= 1500. Oversize replies to get_peers \
+               queries (matched by source and transaction id) whose length without their values entries would fit are the known finding \
                C17-values-uncapped (see KNOWN_FINDINGS.txt); every other oversize datagram is a violation. \
                distinct_nontrivial = distinct (peers stored, peer family, world size, node family) plus the \
                scenario classes of the re-run streams.",
